@@ -2,15 +2,23 @@
 from engine import core
 from . import C01, C02
 
-INFO = {"outside": "wip", "assumptions": []}
-MANIFEST = {"text": "wip", "note": "wip"}
+INFO = {
+    "outside": 'real interleavings; the router-key table; *_free',
+    "assumptions": ['POSIX rwlock semantics'],
+}
+MANIFEST = {
+    "text": "REDUCED claim (CBMC: 'pointer handling for concurrency is unsound' on this heap, so interleavings cannot be symbolic). Lock-discipline lemmas decided on the sequential real code: the table's shared fields hold ARBITRARY values whenever its rwlock is not held ('havoc outside the lock') and the functional oracles of C01/C02 are re-asserted, so any access outside a critical section fails an oracle; each read operation uses exactly one read section and changes nothing; lock/unlock pairing asserted by the lock model.",
+    "note": 'NOT machine-checked: the textbook step from (every access inside one critical section, mutations inside write sections, one read section per read) to linearizability and data-race freedom under POSIX rwlock semantics. pfx_table_free and callbacks (which run outside the lock by design) are excluded. Prefix table only in the quick tier.',
+    "technique": 'CBMC havoc-outside-lock rwlock model on real trie-pfx.c (sequential reduction)',
+}
 
 
 def jobs(tier):
     J = []
     for (nm, entry, td, te) in (("add", "harness_add", 1, 1), ("remove", "harness_remove", 1, 1),
                                 ("srcremove", "harness_src_remove", 0, 2), ("foreach", "harness_for_each", 1, 1)):
-        j = C02.op_job("havoc_%s_v4" % nm, entry, td, te, 4, 1200, prop="ASSERT_C02", extra=["VL_HAVOC"])
+        j = C02.op_job("havoc_%s_v4" % nm, entry, td, te, 4, 1200, prop="ASSERT_C02",
+                       extra=["VL_HAVOC"] + (["TL_SHAPE=1", "TL_NRECS=2"] if nm == "srcremove" else []))
         j.desc = "C16 havoc-outside-lock model: " + j.desc
         j.native_replay = False
         J.append(j)
